@@ -52,6 +52,14 @@ class H(explore.Harness):
         self.depth_used = 0
         self.rig.acc.handler = self._handler
         self._add_listener("L1")
+        # a neighbour: another pairing of the same kind in the same process (another accessory, never connected), with a listener of its own.
+        # Whatever happens to THIS pairing is none of its business.
+        from aiohomekit.controller.ip.pairing import IpPairing
+
+        nd = dict(self.pairing.pairing_data, AccessoryPairingID="11:22:33:44:55:66", AccessoryIP="10.9.9.9", AccessoryIPs=["10.9.9.9"])
+        self.neighbour = IpPairing(self.rig.controller, nd)
+        self.nlog = []
+        self.neighbour.dispatcher_connect(lambda ev: self.nlog.append(dict(ev)))
         self.secure_connections = 0
         try:
             self.rig.connect()
@@ -247,6 +255,9 @@ class H(explore.Harness):
 
     # ---- oracle, evaluated at quiescent states
     def _post(self):
+        if self.nlog or self.neighbour.subscriptions:
+            self.viol.append(("neighbour-pairing-disturbed", {"delivered_to_its_listener": self.nlog[:2], "its_subscriptions": sorted(self.neighbour.subscriptions)}))
+            self.nlog.clear()
         n_secure = sum(1 for c in self.net.conns if getattr(c, "session", None) is not None and c.session.verified)
         if n_secure > self.secure_connections:
             new = n_secure - self.secure_connections
